@@ -15,9 +15,10 @@ CONSTANTS MaxFull,     \* chains with up to MaxFull child levels vary both block
 VARIABLE cs
 
 TName(i) == CASE i = 0 -> "t0" [] i = 1 -> "t1" [] i = 2 -> "t2" [] i = 3 -> "t3" [] i = 4 -> "t4"
-Kinds == {"absent", "text", "empty", "textparent", "parent"}
+Kinds == {"absent", "text", "empty", "textparent", "parent", "parent2"}
+\* "nest" (block b1 of a child only): the override contains a definition of b2, which also calls parent()
 BaseKinds == {"text", "empty"}
-Layouts == {"top", "nested", "loop", "if", "iffalse"}
+Layouts == {"top", "nested", "loop", "if", "iffalse", "incl"}
 
 \* marker of (level, block): a capital letter per level, digit per block
 Marker(lvl, b) == <<65 + lvl, IF b = "b1" THEN 49 ELSE 50>>
@@ -26,6 +27,9 @@ Body(lvl, b, kind) ==
       [] kind = "empty" -> <<>>
       [] kind = "textparent" -> <<Text(Marker(lvl, b)), Text(<<40>>), PrintS(Call("parent", <<>>)), Text(<<41>>), PrintS(Var("i"))>>
       [] kind = "parent" -> <<PrintS(Call("parent", <<>>))>>
+      [] kind = "parent2" -> <<PrintS(Call("parent", <<>>)), Text(<<124>>), PrintS(Call("parent", <<>>))>>
+      [] kind = "nest" -> <<Text(Marker(lvl, b)), Text(<<40>>), PrintS(Call("parent", <<>>)), Text(<<41, 60>>),
+                            Block("b2", <<Text(Marker(lvl, "b2")), Text(<<40>>), PrintS(Call("parent", <<>>)), Text(<<41>>)>>), Text(<<62>>)>>
 BlockOf(lvl, b, kind) == Block(b, Body(lvl, b, kind))
 
 \* base layout (level k)
@@ -38,6 +42,9 @@ BaseBody(k, lay, k1, k2) ==
            <<BlockOf(k, "b2", k2), For1("i", Lit(VL(<<VI(1), VI(2)>>)), <<BlockOf(k, "b1", k1), Text(<<59>>)>>), Text(<<70>>)>>
       [] lay = "if" ->
            <<If1(LB(TRUE), <<BlockOf(k, "b1", k1)>>), Text(<<77>>), BlockOf(k, "b2", k2)>>
+      [] lay = "incl" ->
+           \* the layout includes another inheritance chain (n1 extends n2) whose block names collide with its own
+           <<Text(<<72>>), BlockOf(k, "b1", k1), Inc(LS(NT.n1)), Text(<<77>>), BlockOf(k, "b2", k2), Inc(LS(NT.n1)), Text(<<70>>)>>
       [] lay = "iffalse" ->
            <<If1(Var("no"), <<BlockOf(k, "b1", k1)>>), Text(<<77>>), BlockOf(k, "b2", k2)>>
 
@@ -50,8 +57,8 @@ ChildBody(lvl, k1, k2, dyn) ==
     \o (IF k2 = "absent" THEN <<>> ELSE <<BlockOf(lvl, "b2", k2)>>)
 
 \* a chain description: kinds[l] = <<k1, k2>> for child levels 0..n-1, base kinds, layout, dyn
-ChildKindsFull == Kinds \X Kinds
-ChildKindsOne == Kinds \X {"absent"}
+ChildKindsFull == (Kinds \X Kinds) \cup {<<"nest", "absent">>}
+ChildKindsOne == (Kinds \cup {"nest"}) \X {"absent"}
 Chains ==
     UNION { {[n |-> n, ch |-> ch, bk |-> bk, lay |-> lay, dyn |-> dyn]
               : ch \in [1..n -> ChildKindsFull], bk \in BaseKinds \X BaseKinds, lay \in Layouts, dyn \in {FALSE}}
@@ -61,10 +68,13 @@ Chains ==
             : n \in (MaxFull + 1)..MaxOne }
     \cup { [n |-> 1, ch |-> <<<<k1, "absent">>>>, bk |-> <<"text", "text">>, lay |-> "top", dyn |-> TRUE] : k1 \in Kinds }
 
+IncTp == ("n1" :> <<Extends(LS(NT.n2)), Block("b1", <<Text(<<85>>), PrintS(Call("parent", <<>>))>>)>>)
+         @@ ("n2" :> <<Text(<<91>>), Block("b1", <<Text(<<86>>)>>), Block("b2", <<Text(<<87>>)>>), Text(<<93>>)>>)
 Tp(c) == [name \in {TName(i) : i \in 0..c.n} |->
             LET i == CHOOSE j \in 0..c.n : TName(j) = name IN
             IF i = c.n THEN BaseBody(c.n, c.lay, c.bk[1], c.bk[2])
             ELSE ChildBody(i, c.ch[i + 1][1], c.ch[i + 1][2], c.dyn /\ i = 0)]
+         @@ (IF c.lay = "incl" THEN IncTp ELSE EmptyFn)
 
 Ctx(c) == IF c.dyn THEN ("pv" :> VS(NT.t1)) ELSE EmptyFn
 World(c) == MkW(Tp(c), {}, {}, NoFault)
@@ -88,5 +98,5 @@ Emit == PrintT(ToJson(CaseOf(cs)))
 \* model-level sanity: a chain in which no child defines anything renders the base alone
 NoOverrideIsBase ==
     (\A i \in 1..cs.n : cs.ch[i] = <<"absent", "absent">>) =>
-        Ref(cs).out = Render(MkW(("t0" :> BaseBody(cs.n, cs.lay, cs.bk[1], cs.bk[2])), {}, {}, NoFault), "t0", Ctx(cs)).out
+        Ref(cs).out = Render(MkW(("t0" :> BaseBody(cs.n, cs.lay, cs.bk[1], cs.bk[2])) @@ (IF cs.lay = "incl" THEN IncTp ELSE EmptyFn), {}, {}, NoFault), "t0", Ctx(cs)).out
 =============================================================================
